@@ -176,10 +176,10 @@ impl<T: ?Sized> RwLock<T> {
             }
         }
 
-        let g = RwLockReadGuard::new(self)?;
-        // finally we add rlock
+        // add rlock before creating the guard, the guard could be
+        // returned within the poison error and it would dec rlock when dropped
         *r += 1;
-        Ok(g)
+        Ok(RwLockReadGuard::new(self)?)
     }
 
     fn read_unlock(&self) {
